@@ -46,8 +46,8 @@ def menu(k1s, k2s, tier):
         ops += [("update_map", m), ("update_pairs", m), ("or", m), ("ior", m), ("ror", m)]
         if all(isinstance(k, str) for k, _ in m):
             ops.append(("update_kw", m))
-    for variant in ("same_upper", "same_lower", "same_caseless", "same_reversed_mixed", "value_changed",
-                    "extra_key", "missing_key"):
+    for variant in ("same_upper", "same_lower", "same_caseless", "same_reversed_mixed", "same_dup_variants",
+                    "same_pairs_dup_variants", "value_changed", "extra_key", "missing_key", "extra_key_dup_variants"):
         ops += [("eqv", variant), ("nev", variant)]
     return ops
 
@@ -80,6 +80,28 @@ def other_mapping(variant, items, cls):
         return CaselessDict({k.lower(): v for k, v in items}), True
     if variant == "same_reversed_mixed":
         return collections.OrderedDict((k.capitalize(), v) for k, v in reversed(items)), True
+    if variant == "same_dup_variants":
+        # a plain mapping that spells every name in two letter cases (same value): same upper-cased content
+        d = {}
+        for k, v in items:
+            d[k.lower()] = v
+            d[k.upper()] = v
+        return d, True
+    if variant == "same_pairs_dup_variants":
+        d = collections.OrderedDict()
+        for k, v in items:
+            d[k.capitalize()] = v
+            d[k.lower()] = v
+            d[k.upper()] = v
+        return d, True
+    if variant == "extra_key_dup_variants":
+        d = {"zz": 0}
+        for k, v in items[1:]:
+            d[k.lower()] = v
+        for k, v in items[:1]:
+            d[k.lower()] = v
+            d[k.upper()] = v
+        return d, False
     if variant == "value_changed":
         if not items:
             return {"ZZ": 0}, False
